@@ -594,10 +594,116 @@ fn huge_sources(found: &mut Vec<(String, String, Value)>, notes: &mut Vec<String
             }
         }
     }
+    // (d) every 32-bit word.  A choice among n members that consumes one 32-bit word and never redraws cannot be
+    // uniform unless n divides 2^32; one that redraws for some words is uniform iff the words it accepts at once
+    // are shared equally.  All 2^32 first words are enumerated (redraws are answered with word 0 and not counted).
+    {
+        struct FirstWord {
+            w: u32,
+            draws: u32,
+            wide: bool,
+        }
+        impl rand::RngCore for FirstWord {
+            fn next_u32(&mut self) -> u32 {
+                self.draws = self.draws.saturating_add(1);
+                if self.draws == 1 {
+                    self.w
+                } else {
+                    // redraws: a fixed scrambled sequence (a constant word could be one the sampler never accepts)
+                    let mut z = (self.w as u64 ^ 0x9e37_79b9_7f4a_7c15).wrapping_add((self.draws as u64).wrapping_mul(0xbf58_476d_1ce4_e5b9));
+                    z = (z ^ (z >> 30)).wrapping_mul(0x94d0_49bb_1331_11eb);
+                    (z >> 32) as u32
+                }
+            }
+            fn next_u64(&mut self) -> u64 {
+                self.draws = self.draws.saturating_add(1);
+                self.wide = true;
+                0x8000_0000_0000_0001
+            }
+            fn fill_bytes(&mut self, dst: &mut [u8]) {
+                self.draws = self.draws.saturating_add(1);
+                self.wide = true;
+                dst.fill(0x55);
+            }
+        }
+        let lens: Vec<usize> = if std::env::var("VERIF_TIER").map(|t| t == "thorough").unwrap_or(false) || std::env::args().any(|a| a == "thorough") { vec![3, 7, 1009, 65_537, 1_000_003] } else { vec![3, 1009] };
+        for n in lens {
+            let v: Vec<u32> = (0..n as u32).collect();
+            for flavour in [0usize, 2] {
+                // (quick tier: the cloning flavour for 3 members only)
+                if flavour == 2 && n != 3 && n != 7 && n != 65_537 {
+                    continue;
+                }
+                n_runs += 1u64 << 32;
+                let owned: Option<OneOfCloning<Vec<u32>, u32>> = if flavour == 0 { IntoDistribution::<u32>::into_distribution(v.clone()).ok() } else { None };
+                let borrowed = if flavour == 2 { IntoDistribution::<u32>::into_distribution(&v).ok() } else { None };
+                let chunks = 64u64;
+                let outs = mcx::par_map(chunks as usize, |c| {
+                    let r = mcx::guarded(|| {
+                    let (lo, hi) = ((c as u64) << 26, (c as u64 + 1) << 26);
+                    let mut counts = vec![0u64; n];
+                    let mut redrawn = 0u64;
+                    let mut wide = false;
+                    let mut wrong: Option<String> = None;
+                    for w in lo..hi {
+                        let mut rng = FirstWord { w: w as u32, draws: 0, wide: false };
+                        let r = match (&owned, &borrowed) {
+                            (Some(d), _) => d.sample(&mut rng),
+                            (_, Some(d)) => d.sample(&mut rng),
+                            _ => {
+                                wrong = Some("construction was rejected".into());
+                                break;
+                            }
+                        };
+                        wide |= rng.wide;
+                        if r as usize >= n {
+                            wrong = Some(format!("returned {r}, not a member"));
+                            break;
+                        }
+                        if rng.draws == 1 {
+                            counts[r as usize] += 1;
+                        } else {
+                            redrawn += 1;
+                        }
+                    }
+                    (counts, redrawn, wide, wrong)
+                    });
+                    match r {
+                        Ok(x) => x,
+                        Err(p) => (vec![0u64; n], 0, false, Some(format!("panicked: {p}"))),
+                    }
+                });
+                let mut counts = vec![0u64; n];
+                let (mut redrawn, mut wide, mut wrong) = (0u64, false, None);
+                for (c, r, w, p) in outs {
+                    for (a, b) in counts.iter_mut().zip(c) {
+                        *a += b;
+                    }
+                    redrawn += r;
+                    wide |= w;
+                    if wrong.is_none() {
+                        wrong = p;
+                    }
+                }
+                let label = format!("{} on {n} members, every 32-bit first word", FLAVOURS[flavour]);
+                if let Some(p) = wrong {
+                    report(format!("choice/{flavour}/words/result"), format!("{label}: {p}"), json!({"check":"C18","scenario":"huge","flavour":flavour,"n":n.to_string()}));
+                } else if wide {
+                    notes.push(format!("{label}: the choice does not draw 32-bit words first; the enumeration does not apply"));
+                } else {
+                    let (mn, mx) = (counts.iter().min().copied().unwrap_or(0), counts.iter().max().copied().unwrap_or(0));
+                    if mn != mx {
+                        let (imn, imx) = (counts.iter().position(|c| *c == mn).unwrap(), counts.iter().position(|c| *c == mx).unwrap());
+                        report(format!("choice/{flavour}/words/law"), format!("{label}: of the words accepted at once ({redrawn} are redrawn) member {imx} gets {mx} and member {imn} gets {mn}: the choice is not uniform"), json!({"check":"C18","scenario":"huge","flavour":flavour,"n":n.to_string()}));
+                    }
+                }
+            }
+        }
+    }
     n_runs
 }
 fn huge_bound() -> Value {
-    json!("zero-sized members: 2^32-1, 2^32, 2^32+1, 2^32+2, 2^33, 3*2^32, usize::MAX (construction, member count, one sample); one-byte members: 2^32 and 2^32+2 (exact value law 1/2, 1/2 on the grid of two cells); fine grids enumerated word by word (one draw per sample): 2^24+2^23 members x 1 cell, 3*2^20 x 16, 3*2^22 x 4, 10^6 x 17, 65537 x 257, 1009 x 16661 cells per member - every member returned for exactly its share of the words (owning and cloning flavours); owning, borrowing and cloning flavours")
+    json!("zero-sized members: 2^32-1, 2^32, 2^32+1, 2^32+2, 2^33, 3*2^32, usize::MAX (construction, member count, one sample); one-byte members: 2^32 and 2^32+2 (exact value law 1/2, 1/2 on the grid of two cells); fine grids enumerated word by word (one draw per sample): 2^24+2^23 members x 1 cell, 3*2^20 x 16, 3*2^22 x 4, 10^6 x 17, 65537 x 257, 1009 x 16661 cells per member - every member returned for exactly its share of the words (owning and cloning flavours); all 2^32 first words for 3 and 1009 members (thorough: 7, 65537, 1000003 too): the words accepted without a redraw are shared equally; owning, borrowing and cloning flavours")
 }
 
 /// collection generators: exactly `size` elements, element i is the i-th product
